@@ -164,6 +164,15 @@ def run(rep, tier, seed):
                 n_layout_checked += 1
                 if not o.startswith("OK"):
                     c, bg, _ = byid[tag]
+                    rounds = layout_rounds(lr.case.grammar, sbytes)
+                    if rounds is not None and rounds >= 2:
+                        # the parser runs the layout sub-parser again when no token follows a parsed layout; the stored
+                        # layout is then what several rounds skipped (recorded finding, see KNOWN_FINDINGS.txt)
+                        rep.violation("layout-spans-several-rounds", "a layout stored in the tree is not ONE sentence of the "
+                                      "Layout rule but the concatenation of %d (the layout sub-parser ran %d times before "
+                                      "the token)" % (rounds, rounds),
+                                      dict(grammar=c.grammar, layout=repr(sbytes), rounds=rounds))
+                        continue
                     rep.violation("layout-not-in-layout-language", "a layout stored in the tree is not a sentence of the "
                                   "Layout rule", dict(grammar=c.grammar, layout=repr(sbytes), oracle=o[:200]))
                     break
@@ -182,6 +191,26 @@ def run(rep, tier, seed):
         layouts_checked_against_layout_rule=n_layout_checked, stats=stats, samples=samples)
     rep.assumptions = ["recognizers insensitive to what follows a token boundary (needed for layout-insertion invariance; "
                        "measured: only sequences that re-tokenise identically are compared)"]
+
+
+def layout_rounds(sub, sbytes):
+    """number of partial parses of the stand-alone Layout grammar that consume `sbytes` exactly, each from where the
+    one before stopped (the way the parser skips layout in rounds); None if that does not consume it"""
+    rest, rounds = sbytes, 0
+    while rest and rounds < 12:
+        c = Case("layround", sub, [rest.decode(errors="replace")], algo="LR", table="LALR_PAGER", run="LR",
+                 flags=dict(ps=1, pse=1, skipws=0, partial=1))
+        r = run_cases([c], "c14round", shards=1)[0]
+        o = r.results.get(("LR", 0), "")
+        if not o.startswith("OK"):
+            return None
+        t = parse_sexp(o.split(" ", 1)[1])
+        k = t[4][0]
+        if k <= 0:
+            return None
+        rest = rest[k:]
+        rounds += 1
+    return rounds if not rest else None
 
 
 def replay(rep, path):
